@@ -76,7 +76,12 @@ class GenRoutes(ReverseProxyBasePlugin):
         for r in _table:
             if r['kind'] != 'static' and r['regex'] == pattern.pattern:
                 if r['kind'] == 'dyn-url':
-                    return Url.from_bytes(r['urls'][0])
+                    u = Url.from_bytes(r['urls'][0])
+                    if r.get('suffix'):
+                        # the idiom of the shipped example plugin: parse the upstream URL, then extend its path per request
+                        rid = request.header(b'x-req-id') if request.has_header(b'x-req-id') else b'?'
+                        u.remainder = (u.remainder or b'/') + (b'&' if b'?' in (u.remainder or b'') else b'?') + b'rid=' + rid
+                    return u
                 return memoryview(r['literal'])
         raise AssertionError('no dynamic route for %r' % pattern.pattern)
 
@@ -174,7 +179,7 @@ def run_case(case: Dict[str, Any]) -> Dict[str, Any]:
         # ---- materialise the table: every URL gets a live origin ----
         del _table[:]
         for ri, spec in enumerate(case['routes']):
-            r: Dict[str, Any] = {'kind': spec['kind'], 'regex': spec['regex'], 'urls': [], 'targets': []}
+            r: Dict[str, Any] = {'kind': spec['kind'], 'regex': spec['regex'], 'urls': [], 'targets': [], 'suffix': bool(spec.get('suffix'))}
             if spec['kind'] == 'dyn-literal':
                 r['literal'] = b'HTTP/1.1 200 OK\r\nContent-Length: %d\r\nX-Literal: %d\r\n\r\n' % (len(spec['body']), ri) + spec['body'].encode()
             else:
@@ -344,8 +349,12 @@ def run_case(case: Dict[str, Any]) -> Dict[str, Any]:
             oreq = reqs[0]
             if oreq['method'] != q['method'].encode():
                 bad('method-changed', got=oreq['method'])
-            if oreq['target'] != t['path']:
-                bad('request-path-is-not-the-upstream-urls-path', got=oreq['target'], want=t['path'])
+            want_path = t['path']
+            if want.get('suffix'):
+                want_path = want_path + (b'&' if b'?' in want_path else b'?') + b'rid=' + rid.encode()
+                obs['per_request_url_suffixes_checked'] = obs.get('per_request_url_suffixes_checked', 0) + 1
+            if oreq['target'] != want_path:
+                bad('request-path-is-not-the-upstream-urls-path', got=oreq['target'], want=want_path)
             want_host = t['authority'] if rewrite else b'front.example:8899'
             hosts = [v for k, v in oreq['headers'] if k == b'host']
             if hosts != [want_host]:
@@ -417,7 +426,7 @@ def cases(tier: str, seed: int):
                 continue
             used.add(rx)
             kind = rng.choice(['static', 'static', 'static', 'dyn-url', 'dyn-literal'])
-            spec: Dict[str, Any] = {'kind': kind, 'regex': rx}
+            spec: Dict[str, Any] = {'kind': kind, 'regex': rx, 'suffix': kind == 'dyn-url' and rng.random() < 0.5}
             if kind == 'dyn-literal':
                 spec['body'] = 'literal-%d-' % i + 'L' * rng.choice([0, 5, 300])
             else:
@@ -477,7 +486,7 @@ def floors(tier: str) -> Dict[str, int]:
     return {'routed_checked': 300, 'unrouted_checked': 100, 'literal_checked': 30, 'match:several': 30, 'rewrite:True': 100,
             'rewrite:False': 100, 'distinct:url_shapes': 8, 'distinct:choices': 4,
             'large_relays_checked': 20, 'slow_reader_relays_checked': 15, 'nonkeepalive_followups_checked': 60,
-            'nonkeepalive_after_literal_checked': 30, 'https_upstream_urls': 100, 'large_uploads_checked': 20, 'large_uploads_to_tls_upstream_checked': 8, 'early_answers_relayed': 5}
+            'nonkeepalive_after_literal_checked': 30, 'https_upstream_urls': 100, 'large_uploads_checked': 20, 'large_uploads_to_tls_upstream_checked': 8, 'early_answers_relayed': 5, 'per_request_url_suffixes_checked': 60}
 
 
 if __name__ == '__main__':
